@@ -140,6 +140,9 @@ func crashChildOpen(in json.RawMessage) (interface{}, error) {
 		return nil, err
 	}
 	res := &crashOpenResult{}
+	var done func()
+	cs.Dir, done = privateCopy(cs.Dir) // the writer below changes the directory; the image must stay as made
+	defer done()
 	res.ReaderMmap = openAndDump(cs.Dir, "mmap")
 	res.ReaderNoMmap = openAndDump(cs.Dir, "nommap")
 	w, err := bluge.OpenWriter(fsConfig(cs.Dir, fsOpts{Loader: "mmap", Merge: "none"}, nil))
@@ -334,6 +337,9 @@ func crashChildContinue(in json.RawMessage) (interface{}, error) {
 		return nil, err
 	}
 	out := &crashContinueResult{}
+	var done func()
+	cs.Dir, done = privateCopy(cs.Dir) // the continuation writes; the image must stay as made (re-runs)
+	defer done()
 	// what does the directory hold?
 	o := openAndDump(cs.Dir, "mmap")
 	if o.Err != "" {
